@@ -2,6 +2,7 @@
 
 mod bridge;
 mod c02;
+mod c01;
 mod c03;
 mod c04;
 mod c05;
@@ -98,6 +99,7 @@ fn drive<E: Engine>(e: &E, a: &Args, digest_only: bool) -> i32 {
 fn dispatch(a: &Args, digest_only: bool) -> i32 {
     match a.id.as_str() {
         "C02" => drive(&c02::C02, a, digest_only),
+        "C01" => drive(&c01::C01, a, digest_only),
         "C03" => drive(&c03::C03, a, digest_only),
         "C04" => drive(&c04::C04, a, digest_only),
         "C05" => drive(&c05::C05, a, digest_only),
